@@ -7,6 +7,7 @@
   Lemmas/.
 -/
 import GherkinVerif.Lemmas.C02Cert
+import GherkinVerif.KDecide
 namespace GV
 
 /-- For every finite sequence of line kinds (any length), the generated state machine — with its
@@ -36,8 +37,8 @@ theorem C02_sentence_of_lang (ks : List Kind) (h : Kind.EOF ∉ ks)
 
 /-- non-vacuity: a small accepted document and a small rejected one -/
 example : acceptsAbs Gen.parserTable [.FeatureLine, .TagLine, .Comment, .ScenarioLine, .StepLine, .TableRow] = true := by
-  decide +kernel
+  kdecide
 example : acceptsAbs Gen.parserTable [.FeatureLine, .TagLine, .Comment, .StepLine] = false := by
-  decide +kernel
+  kdecide
 
 end GV
